@@ -638,6 +638,61 @@ func init() {
 					}
 				}
 			}
+			if wantForward && len(sc.FailAt) == 0 && cs.Info["fault_variant"] == nil && hist == "" {
+				// the same history, a step AFTER the recording failing in the
+				// first delivery (ownership, the stored value, the filter,
+				// the transport), and the delivery repeated at the end: the
+				// record made before the failure stands, so the activity is
+				// created once and the repeat forwards nothing more
+				after, tried := false, 0
+				for _, e := range res.Log {
+					if e.Req != "r0" {
+						continue
+					}
+					if e.Kind == "db.Create" && len(e.Args) > 0 && e.Args[0] == actID {
+						after = true
+						continue
+					}
+					if !after || e.FallIdx <= 0 || tried >= 6 {
+						continue
+					}
+					tried++
+					fc := cloneScenario(sc)
+					fc.FailAt = []int{e.FallIdx}
+					fc.Requests = append(fc.Requests, fc.Requests[0])
+					fres := sim.Run(fc)
+					r.Eval(1)
+					r.Count("later_fault_variants", 1)
+					nCreate, nFw, injected := 0, 0, false
+					for _, fe := range fres.Log {
+						if fe.Injected {
+							injected = true
+						}
+						if fe.Kind == "db.Create" && len(fe.Args) > 0 && fe.Args[0] == actID && !fe.Injected {
+							nCreate++
+						}
+						if fe.Kind == "tp.BatchDeliver" {
+							if pm, _ := parseJSON(fe.Payload); act["type"] == "Follow" {
+								if m, _ := pm.(map[string]interface{}); m != nil && (m["type"] == "Accept" || m["type"] == "Reject") {
+									continue
+								}
+							}
+							nFw++
+						}
+					}
+					if !injected {
+						continue
+					}
+					if nCreate > 1 {
+						r.Violate(verdict.Sig{Rule: "C17.seen-record-count", Site: "pub.(*sideEffectActor).InboxForwarding", Feature: "activity Create count with a step after the recording failing (" + e.Kind + ")"}, map[string]interface{}{"scenario": fc, "info": cs.Info},
+							map[string]interface{}{"message": fmt.Sprintf("the activity was created %d times: the record made before the failing %s did not stand", nCreate, e.Kind), "responses": fres.Responses, "log": fres.Log})
+					}
+					if nFw > 1 {
+						r.Violate(verdict.Sig{Rule: "C17.forward-count", Site: "pub.(*sideEffectActor).InboxForwarding", Feature: "want at most 1 with a step after the recording failing (" + e.Kind + ")"}, map[string]interface{}{"scenario": fc, "info": cs.Info},
+							map[string]interface{}{"message": fmt.Sprintf("%d forwards over the history", nFw), "responses": fres.Responses, "log": fres.Log})
+					}
+				}
+			}
 			if wantForward {
 				r.NonTrivial(jstr(sc.Requests) + jstr(cs.Info))
 				if len(forwards) == 0 && len(wantRecips) == 0 {
